@@ -7,6 +7,8 @@ fn engine(id: &str, tier: &str, replay: Option<&serde_json::Value>) -> Option<gv
         ("C01", Some(v)) => c01::replay(v),
         ("C02", None) => c02::run(tier),
         ("C02", Some(v)) => c02::replay(v),
+        ("C11", None) => c11::run(tier),
+        ("C11", Some(v)) => c11::replay(v),
         ("C12", None) => c12::run(tier),
         ("C12", Some(v)) => c12::replay(v),
         ("C16", None) => c16::run(tier),
@@ -17,6 +19,8 @@ fn engine(id: &str, tier: &str, replay: Option<&serde_json::Value>) -> Option<gv
         ("C18", Some(v)) => c18::replay(v),
         ("C19", None) => c19::run(tier),
         ("C19", Some(v)) => c19::replay(v),
+        ("C07", None) => c07::run(tier),
+        ("C07", Some(v)) => c07::replay(v),
         ("C08", None) => c08::run(tier),
         ("C08", Some(v)) => c08::replay(v),
         ("C09", None) => c09::run(tier),
